@@ -1,47 +1,139 @@
 import BlugeProofs.C10.Split
-/-! # C10 helper lemmas: the byte walk of `termRange.Enumerate` visits exactly the terms in between -/
+/-! # C10 helper lemmas: the walk of `termRange.Enumerate` with a filter (`next = incrementPrefixCoded next`)
+visits exactly the valid terms in between, in a bounded number of steps -/
 namespace Bluge.C10
 open Bluge.Numeric
 
-/-- a byte string read as a base-256 number, big endian -/
-def val : List Byte → Nat
-  | [] => 0
-  | b :: bs => b.toNat * 256 ^ bs.length + val bs
+theorem bytesLe_antisymm (a b : List Byte) (h1 : bytesLe a b = true) (h2 : bytesLe b a = true) : a = b := by
+  rcases (bytesLe_iff_lt_or_eq a b).1 h1 with h | h
+  · rw [bytesLt_eq_not_bytesLe, h2] at h; simp at h
+  · exact h
 
-theorem val_lt (a : List Byte) : val a < 256 ^ a.length := by
-  induction a with
-  | nil => simp [val]
-  | cons b bs ih =>
-    simp only [val, List.length_cons, Nat.pow_succ]
-    have := b.isLt
-    have h : (b.toNat + 1) * 256 ^ bs.length ≤ 256 * 256 ^ bs.length := Nat.mul_le_mul_right _ (by omega)
-    rw [Nat.add_mul] at h
+/-! ## `incrementPrefixCoded` -/
+
+/-- `incrementPrefixCoded` on the reversed string (last byte first): bump the byte; a digit above 0x7f is reset
+and carries on, the first byte of the string (last here) is bumped without a test -/
+def incRev : List Byte → List Byte
+  | [] => []
+  | [h] => [h + 1]
+  | d :: c :: rest => if (d + 1).toNat ≤ 0x7f then (d + 1) :: c :: rest else 0#8 :: incRev (c :: rest)
+
+theorem incPC_loop_spec : ∀ (fuel : Nat) (rp : List Byte) (b : Byte) (suf : List Byte), rp.length < fuel →
+    incPC.loop fuel rp.length (rp.reverse ++ b :: suf) = (incRev (b :: rp)).reverse ++ suf := by
+  intro fuel
+  induction fuel with
+  | zero => intro rp b suf h; omega
+  | succ fuel ih =>
+    intro rp b suf hf
+    have hlen : rp.reverse.length = rp.length := List.length_reverse
+    have hget : (rp.reverse ++ b :: suf).getD rp.length 0#8 = b := by
+      rw [List.getD_eq_getElem?_getD, List.getElem?_append_right (by omega)]
+      simp
+    have hset : ∀ w v, (rp.reverse ++ w :: suf).set rp.length v = rp.reverse ++ v :: suf := by
+      intro w v
+      rw [List.set_append_right _ _ (by omega)]
+      simp
+    rw [incPC.loop]
+    simp only [hget, hset]
+    cases rp with
+    | nil => simp [incRev]
+    | cons c rp' =>
+      have h0 : ((c :: rp').length == 0) = false := by simp
+      simp only [h0, Bool.false_or, decide_eq_true_eq]
+      by_cases hv : (b + 1#8).toNat ≤ 0x7f
+      · rw [if_pos hv]
+        simp only [incRev]
+        have : (b + 1).toNat ≤ 0x7f := hv
+        rw [if_pos this]
+        simp
+      · rw [if_neg hv]
+        simp only [incRev]
+        have : ¬ (b + 1).toNat ≤ 0x7f := hv
+        rw [if_neg this]
+        have e1 : (c :: rp').length - 1 = rp'.length := by simp
+        have e2 : (c :: rp').reverse ++ 0#8 :: suf = rp'.reverse ++ c :: 0#8 :: suf := by simp
+        rw [e1, e2, ih rp' c (0#8 :: suf) (by simp at hf; omega)]
+        simp
+
+theorem incPC_eq (bs : List Byte) : incPC bs = (incRev bs.reverse).reverse := by
+  unfold incPC
+  cases hr : bs.reverse with
+  | nil =>
+    have : bs = [] := by simpa using hr
+    subst this; rfl
+  | cons b rp =>
+    have hbs : bs = rp.reverse ++ [b] := by
+      have := congrArg List.reverse hr; simpa using this
+    have hl : bs.length = rp.length + 1 := by rw [hbs]; simp
+    have h0 : (bs.length == 0) = false := by simp [hl]
+    simp only [h0, Bool.false_eq_true, if_false]
+    have := incPC_loop_spec bs.length rp b [] (by omega)
+    rw [hl] at this ⊢
+    simp only [Nat.add_sub_cancel]
+    rw [hbs] at *
+    simpa using this
+
+
+/-- all bytes are base-128 digits -/
+def Dig (ds : List Byte) : Prop := ∀ d ∈ ds, d.toNat ≤ 0x7f
+
+/-- base-128 value, least significant digit first -/
+def valr : List Byte → Nat
+  | [] => 0
+  | d :: rest => d.toNat + 128 * valr rest
+
+/-- base-128 value, most significant digit first -/
+def val128 (ds : List Byte) : Nat := valr ds.reverse
+
+theorem valr_lt (rd : List Byte) (h : Dig rd) : valr rd < 128 ^ rd.length := by
+  induction rd with
+  | nil => simp [valr]
+  | cons d rest ih =>
+    have hd := h d List.mem_cons_self
+    have := ih (fun x hx => h x (List.mem_cons_of_mem _ hx))
+    simp only [valr, List.length_cons, Nat.pow_succ]
     omega
 
-theorem val_append_singleton (bs : List Byte) (b : Byte) : val (bs ++ [b]) = val bs * 256 + b.toNat := by
-  induction bs with
-  | nil => simp [val]
-  | cons c cs ih =>
-    simp only [List.cons_append, val, ih, List.length_append, List.length_singleton, Nat.pow_succ]
-    rw [Nat.add_mul, Nat.mul_assoc]; omega
+theorem valr_append_singleton (l : List Byte) (d : Byte) : valr (l ++ [d]) = valr l + 128 ^ l.length * d.toNat := by
+  induction l with
+  | nil => simp [valr]
+  | cons x xs ih =>
+    simp only [List.cons_append, valr, ih, List.length_cons, Nat.pow_succ]
+    rw [Nat.mul_add, ← Nat.mul_assoc, Nat.mul_comm 128 (128 ^ xs.length)]; omega
 
-/-- for strings of the same length, the bytewise order is the order of the numbers -/
-theorem bytesLe_iff_val : ∀ (a b : List Byte), a.length = b.length → (bytesLe a b = true ↔ val a ≤ val b) := by
+theorem val128_cons (d : Byte) (ds : List Byte) : val128 (d :: ds) = d.toNat * 128 ^ ds.length + val128 ds := by
+  unfold val128
+  rw [List.reverse_cons, valr_append_singleton, List.length_reverse, Nat.mul_comm]; omega
+
+theorem val128_nil : val128 [] = 0 := rfl
+
+theorem Dig_reverse {ds : List Byte} (h : Dig ds) : Dig ds.reverse := fun d hd => h d (List.mem_reverse.1 hd)
+
+theorem Dig_tail {d : Byte} {ds : List Byte} (h : Dig (d :: ds)) : Dig ds :=
+  fun x hx => h x (List.mem_cons_of_mem _ hx)
+
+theorem val128_lt (ds : List Byte) (h : Dig ds) : val128 ds < 128 ^ ds.length := by
+  have := valr_lt ds.reverse (Dig_reverse h)
+  simpa [val128] using this
+
+/-- on digit strings of the same length the bytewise order is the order of the base-128 numbers -/
+theorem bytesLe_iff_val128 : ∀ (a b : List Byte), a.length = b.length → Dig a → Dig b →
+    (bytesLe a b = true ↔ val128 a ≤ val128 b) := by
   intro a
   induction a with
-  | nil => intro b h; cases b <;> simp [bytesLe, val] at *
+  | nil => intro b h _ _; cases b <;> simp [bytesLe, val128_nil] at *
   | cons x xs ih =>
-    intro b h
+    intro b h ha hb
     cases b with
     | nil => simp at h
     | cons y ys =>
       simp only [List.length_cons, Nat.add_right_cancel_iff] at h
-      simp only [bytesLe, val, h]
-      have hx := val_lt xs
-      have hy := val_lt ys
+      simp only [bytesLe, val128_cons, h]
+      have hx := val128_lt xs (Dig_tail ha)
+      have hy := val128_lt ys (Dig_tail hb)
       rw [h] at hx
-      have hlex := lex_step (256 ^ ys.length) x.toNat (val xs) y.toNat (val ys) hx hy
-      have hlex' := lex_step (256 ^ ys.length) y.toNat (val ys) x.toNat (val xs) hy hx
+      have hlex := lex_step (128 ^ ys.length) x.toNat (val128 xs) y.toNat (val128 ys) hx hy
+      have hlex' := lex_step (128 ^ ys.length) y.toNat (val128 ys) x.toNat (val128 xs) hy hx
       by_cases h1 : x.toNat < y.toNat
       · simp only [h1, if_true, true_iff]
         have := hlex.2 (Or.inl h1); omega
@@ -52,106 +144,91 @@ theorem bytesLe_iff_val : ∀ (a b : List Byte), a.length = b.length → (bytesL
         · have h3 : x.toNat = y.toNat := by omega
           have h2' : ¬ x.toNat > y.toNat := h2
           simp only [h1, h2', if_false]
-          rw [ih ys h, h3]; omega
+          rw [ih ys h (Dig_tail ha) (Dig_tail hb), h3]; omega
 
+theorem incRev_cons (d : Byte) (l : List Byte) (hl : l ≠ []) :
+    incRev (d :: l) = if (d + 1).toNat ≤ 0x7f then (d + 1) :: l else 0#8 :: incRev l := by
+  cases l with
+  | nil => exact absurd rfl hl
+  | cons c rest => rfl
 
-
-def incCarry (acc : List Byte × Bool) (b : Byte) : List Byte × Bool :=
-  if acc.2 then ((b + 1) :: acc.1, (b + 1) == 0#8) else (b :: acc.1, false)
-
-theorem incBytes_fold (bs : List Byte) : incBytes bs = (bs.reverse.foldl incCarry ([], true)).1 := rfl
-
-theorem fold_nocarry (l acc : List Byte) : l.foldl incCarry (acc, false) = (l.reverse ++ acc, false) := by
-  induction l generalizing acc with
-  | nil => rfl
-  | cons x xs ih => simp [List.foldl_cons, incCarry, ih]
-
-theorem fold_gen (l : List Byte) : ∀ (acc : List Byte) (c : Bool),
-    (l.foldl incCarry (acc, c)).1 = (l.foldl incCarry ([], c)).1 ++ acc := by
-  induction l with
-  | nil => intro acc c; rfl
-  | cons x xs ih =>
-    intro acc c
-    cases c
-    · simp only [List.foldl_cons, incCarry, Bool.false_eq_true, if_false]
-      rw [ih (x :: acc), ih [x]]; simp
-    · simp only [List.foldl_cons, incCarry, if_true]
-      rw [ih ((x + 1) :: acc), ih [x + 1]]; simp
-
-theorem incBytes_append_singleton (bs : List Byte) (b : Byte) :
-    incBytes (bs ++ [b]) = if b + 1 = 0#8 then incBytes bs ++ [0#8] else bs ++ [b + 1] := by
-  rw [incBytes_fold, List.reverse_append, List.reverse_singleton, List.singleton_append, List.foldl_cons]
-  simp only [incCarry, if_true]
-  by_cases h : b + 1 = 0#8
-  · rw [if_pos h, h]
-    simp only [beq_self_eq_true]
-    rw [fold_gen, ← incBytes_fold]
-  · rw [if_neg h]
-    have : ((b + 1) == 0#8) = false := by simpa using h
-    rw [this, fold_nocarry]; simp
-
-theorem incBytes_empty : incBytes [] = [] := rfl
-
-theorem incBytes_spec_rev : ∀ (l : List Byte),
-    (incBytes l.reverse).length = l.length ∧ val (incBytes l.reverse) = (val l.reverse + 1) % 256 ^ l.length := by
-  intro l
-  induction l with
-  | nil => simp [incBytes_empty, val]
-  | cons b bs ih =>
-    rw [List.reverse_cons, incBytes_append_singleton]
-    have hb := b.isLt
+/-- `incrementPrefixCoded` on (reversed digits ++ [shift byte]): +1 on the base-128 number; when the digits
+are all 0x7f they are reset and the shift byte is bumped -/
+theorem incRev_digits (h : Byte) : ∀ (rd : List Byte), Dig rd →
+    ∃ rd', rd'.length = rd.length ∧ Dig rd' ∧
+      ((valr rd + 1 < 128 ^ rd.length ∧ incRev (rd ++ [h]) = rd' ++ [h] ∧ valr rd' = valr rd + 1) ∨
+       (valr rd + 1 = 128 ^ rd.length ∧ incRev (rd ++ [h]) = rd' ++ [h + 1])) := by
+  intro rd
+  induction rd with
+  | nil => intro _; exact ⟨[], rfl, fun _ h => by simp at h, Or.inr ⟨by simp [valr], rfl⟩⟩
+  | cons d rest ih =>
+    intro hd
+    have hd0 := hd d List.mem_cons_self
+    have hrest := Dig_tail hd
+    have hlt := valr_lt rest hrest
     have h1 : (1 : Byte).toNat = 1 := rfl
-    by_cases h : b + 1 = 0#8
-    · rw [if_pos h]
-      have hb255 : b.toNat = 255 := by
-        have := congrArg BitVec.toNat h
-        simp only [BitVec.toNat_add, BitVec.toNat_ofNat, h1] at this
-        omega
-      refine ⟨by simp [ih.1], ?_⟩
-      rw [val_append_singleton, val_append_singleton, ih.2, hb255]
-      simp only [List.length_cons, Nat.pow_succ]
-      have : val bs.reverse * 256 + 255 + 1 = (val bs.reverse + 1) * 256 := by omega
-      rw [this, Nat.mul_mod_mul_right]
-      simp
-    · rw [if_neg h]
-      have hb' : (b + 1).toNat = b.toNat + 1 := by
-        have : b.toNat ≠ 255 := by
-          intro h'; apply h; apply BitVec.eq_of_toNat_eq
-          simp [BitVec.toNat_add, h']
-        simp only [BitVec.toNat_add, h1]; omega
-      refine ⟨by simp, ?_⟩
-      rw [val_append_singleton, val_append_singleton, hb']
-      have hlt := val_lt bs.reverse
-      simp only [List.length_reverse] at hlt
-      simp only [List.length_cons, Nat.pow_succ]
-      rw [Nat.mod_eq_of_lt]
-      · omega
-      · have : (val bs.reverse + 1) * 256 ≤ 256 ^ bs.length * 256 := Nat.mul_le_mul_right _ hlt
-        omega
+    have hd1 : (d + 1).toNat = d.toNat + 1 := by
+      simp only [BitVec.toNat_add, h1]; omega
+    rw [List.cons_append, incRev_cons d _ (by simp)]
+    by_cases hc : (d + 1).toNat ≤ 0x7f
+    · rw [if_pos hc]
+      refine ⟨(d + 1) :: rest, by simp, ?_, Or.inl ⟨?_, by simp, ?_⟩⟩
+      · intro x hx
+        rcases List.mem_cons.1 hx with rfl | hx
+        · exact hc
+        · exact hrest x hx
+      · simp only [valr, List.length_cons, Nat.pow_succ]; omega
+      · simp only [valr, hd1]; omega
+    · rw [if_neg hc]
+      obtain ⟨rest', hl', hdig', hcase⟩ := ih hrest
+      have hz : Dig (0#8 :: rest') := by
+        intro x hx
+        rcases List.mem_cons.1 hx with rfl | hx
+        · decide
+        · exact hdig' x hx
+      refine ⟨0#8 :: rest', by simp [hl'], hz, ?_⟩
+      rcases hcase with ⟨c1, c2, c3⟩ | ⟨c1, c2⟩
+      · left
+        refine ⟨?_, by rw [c2]; simp, ?_⟩
+        · simp only [valr, List.length_cons, Nat.pow_succ]; omega
+        · simp only [valr, c3]
+          have : (0#8 : Byte).toNat = 0 := rfl
+          rw [this]; omega
+      · right
+        refine ⟨?_, by rw [c2]; simp⟩
+        simp only [valr, List.length_cons, Nat.pow_succ]; omega
 
-theorem length_incBytes (x : List Byte) : (incBytes x).length = x.length := by
-  have := (incBytes_spec_rev x.reverse).1
-  simpa using this
+/-- **`incrementPrefixCoded` on a valid term**: the next term of the same shift (+1 on the base-128 number);
+when the digits are all 0x7f, the shift byte is bumped instead -/
+theorem incPC_valid (h : Byte) (ds : List Byte) (hd : Dig ds) :
+    ∃ ds', ds'.length = ds.length ∧ Dig ds' ∧
+      ((val128 ds + 1 < 128 ^ ds.length ∧ incPC (h :: ds) = h :: ds' ∧ val128 ds' = val128 ds + 1) ∨
+       (val128 ds + 1 = 128 ^ ds.length ∧ incPC (h :: ds) = (h + 1) :: ds')) := by
+  obtain ⟨rd', hl, hdig, hcase⟩ := incRev_digits h ds.reverse (Dig_reverse hd)
+  rw [List.length_reverse] at hl hcase
+  refine ⟨rd'.reverse, by simp [hl], Dig_reverse hdig, ?_⟩
+  rw [incPC_eq, List.reverse_cons]
+  unfold val128
+  rw [List.reverse_reverse]
+  rcases hcase with ⟨c1, c2, c3⟩ | ⟨c1, c2⟩
+  · left; exact ⟨c1, by rw [c2]; simp, c3⟩
+  · right; exact ⟨c1, by rw [c2]; simp⟩
 
-/-- `incrementBytes` is +1 on the number, wrapping at all-0xff -/
-theorem val_incBytes (x : List Byte) : val (incBytes x) = (val x + 1) % 256 ^ x.length := by
-  have := (incBytes_spec_rev x.reverse).2
-  simpa using this
 
+/-! ## the walk -/
 
+theorem val128_inj (a b : List Byte) (hl : a.length = b.length) (ha : Dig a) (hb : Dig b)
+    (h : val128 a = val128 b) : a = b :=
+  bytesLe_antisymm a b ((bytesLe_iff_val128 a b hl ha hb).2 (by omega))
+    ((bytesLe_iff_val128 b a hl.symm hb ha).2 (by omega))
 
-theorem bytesLe_antisymm (a b : List Byte) (h1 : bytesLe a b = true) (h2 : bytesLe b a = true) : a = b := by
-  rcases (bytesLe_iff_lt_or_eq a b).1 h1 with h | h
-  · rw [bytesLt_eq_not_bytesLe, h2] at h; simp at h
-  · exact h
-
-theorem val_inj (a b : List Byte) (hl : a.length = b.length) (h : val a = val b) : a = b :=
-  bytesLe_antisymm a b ((bytesLe_iff_val a b hl).2 (by omega)) ((bytesLe_iff_val b a hl.symm).2 (by omega))
+theorem bytesLe_cons_same (x : Byte) (as bs : List Byte) : bytesLe (x :: as) (x :: bs) = bytesLe as bs := by
+  simp [bytesLe]
 
 theorem go_step (keep : List Byte → Bool) (r : TermRange) (fuel : Nat) (next : List Byte) (acc : List (List Byte)) :
     enumerate.go keep r (fuel + 1) next acc =
       if bytesLe next r.endTerm = true then
-        enumerate.go keep r fuel (incBytes next) (if keep next = true then next :: acc else acc)
+        enumerate.go keep r fuel (incPC next) (if keep next = true then next :: acc else acc)
       else some (fuel + 1, acc) := by
   rw [enumerate.go]
 
@@ -159,120 +236,235 @@ theorem go_zero (keep : List Byte → Bool) (r : TermRange) (next : List Byte) (
     enumerate.go keep r 0 next acc = if bytesLe next r.endTerm = true then none else some (0, acc) := by
   rw [enumerate.go]
 
-/-- if the end term is all-0xff the walk never stops by itself -/
-theorem go_none_of_max (keep : List Byte → Bool) (r : TermRange) (n : Nat) (hend : r.endTerm.length = n)
-    (hmax : val r.endTerm + 1 = 256 ^ n) :
-    ∀ (fuel : Nat) (next : List Byte) (acc : List (List Byte)), next.length = n →
-      enumerate.go keep r fuel next acc = none := by
-  intro fuel
-  induction fuel with
-  | zero =>
-    intro next acc hn
-    have hle : bytesLe next r.endTerm = true := by
-      rw [bytesLe_iff_val _ _ (by omega)]
-      have := val_lt next; rw [hn] at this; omega
-    rw [go_zero, if_pos hle]
-  | succ fuel ih =>
-    intro next acc hn
-    have hle : bytesLe next r.endTerm = true := by
-      rw [bytesLe_iff_val _ _ (by omega)]
-      have := val_lt next; rw [hn] at this; omega
-    rw [go_step, if_pos hle]
-    exact ih _ _ (by rw [length_incBytes, hn])
+theorem go_stop (keep : List Byte → Bool) (r : TermRange) (fuel : Nat) (next : List Byte) (acc : List (List Byte))
+    (h : ¬ bytesLe next r.endTerm = true) : enumerate.go keep r fuel next acc = some (fuel, acc) := by
+  cases fuel with
+  | zero => rw [go_zero, if_neg h]
+  | succ f => rw [go_step, if_neg h]
 
-/-- **the byte walk visits exactly the strings in between**: when the capped walk from `next` returns, the
-accumulator has gained exactly the kept strings of the walk's length lying bytewise in `[next, endTerm]` -/
-theorem go_spec (keep : List Byte → Bool) (r : TermRange) (n : Nat) (hend : r.endTerm.length = n) :
-    ∀ (fuel : Nat) (next : List Byte) (acc : List (List Byte)) (fuel' : Nat) (acc' : List (List Byte)),
-      next.length = n → enumerate.go keep r fuel next acc = some (fuel', acc') →
-      ∀ t, t ∈ acc' ↔ (t ∈ acc ∨ (keep t = true ∧ t.length = n ∧ bytesLe next t = true ∧ bytesLe t r.endTerm = true)) := by
+/-- a term range between two valid prefix coded terms of the same shift byte `h`: `n` digits ≤ 0x7f each -/
+structure ValidRange (r : TermRange) (h : Byte) (ds de : List Byte) : Prop where
+  start_eq : r.startTerm = h :: ds
+  end_eq : r.endTerm = h :: de
+  len : ds.length = de.length
+  digS : Dig ds
+  digE : Dig de
+  hdr : h.toNat < 255
+
+theorem overflow_stops (h : Byte) (hh : h.toNat < 255) (ds' de : List Byte) :
+    ¬ bytesLe ((h + 1) :: ds') (h :: de) = true := by
+  have h1 : (1 : Byte).toNat = 1 := rfl
+  have : (h + 1).toNat = h.toNat + 1 := by simp only [BitVec.toNat_add, h1]; omega
+  simp only [bytesLe, this]
+  have a : ¬ h.toNat + 1 < h.toNat := by omega
+  have b : h.toNat + 1 > h.toNat := by omega
+  simp [a, b]
+
+/-- **the walk visits exactly the valid terms in between** (statement on the digit strings) -/
+theorem go_spec (keep : List Byte → Bool) (r : TermRange) (h : Byte) (de : List Byte)
+    (hend : r.endTerm = h :: de) (hdE : Dig de) (hh : h.toNat < 255) :
+    ∀ (fuel : Nat) (dn : List Byte) (acc : List (List Byte)) (fuel' : Nat) (acc' : List (List Byte)),
+      dn.length = de.length → Dig dn → enumerate.go keep r fuel (h :: dn) acc = some (fuel', acc') →
+      ∀ t, t ∈ acc' ↔ (t ∈ acc ∨ (keep t = true ∧ ∃ dt, t = h :: dt ∧ dt.length = de.length ∧ Dig dt ∧
+        val128 dn ≤ val128 dt ∧ val128 dt ≤ val128 de)) := by
   intro fuel
   induction fuel with
   | zero =>
-    intro next acc fuel' acc' hn h t
-    rw [go_zero] at h
-    by_cases hle : bytesLe next r.endTerm = true
-    · rw [if_pos hle] at h; cases h
-    · rw [if_neg hle] at h
-      simp only [Option.some.injEq, Prod.mk.injEq] at h
-      rw [← h.2]
+    intro dn acc fuel' acc' hn hdn hgo t
+    rw [go_zero, hend, bytesLe_cons_same] at hgo
+    by_cases hle : bytesLe dn de = true
+    · rw [if_pos hle] at hgo; cases hgo
+    · rw [if_neg hle] at hgo
+      simp only [Option.some.injEq, Prod.mk.injEq] at hgo
+      rw [← hgo.2]
+      rw [bytesLe_iff_val128 dn de hn hdn hdE] at hle
       constructor
       · exact Or.inl
-      · rintro (h' | ⟨_, hl, h1, h2⟩)
+      · rintro (h' | ⟨_, dt, _, _, _, h1, h2⟩)
         · exact h'
-        · exfalso; apply hle
-          rw [bytesLe_iff_val _ _ (by omega)] at h1 h2 ⊢
-          omega
+        · omega
   | succ fuel ih =>
-    intro next acc fuel' acc' hn h t
-    rw [go_step] at h
-    by_cases hle : bytesLe next r.endTerm = true
-    · rw [if_pos hle] at h
-      have hlen : (incBytes next).length = n := by rw [length_incBytes, hn]
-      have hnm : val next + 1 < 256 ^ n := by
-        apply Decidable.byContradiction
-        intro hc
-        have h1 := val_lt next; rw [hn] at h1
-        have h2 := val_lt r.endTerm; rw [hend] at h2
-        have h3 := (bytesLe_iff_val _ _ (by omega)).1 hle
-        rw [go_none_of_max keep r n hend (by omega) fuel _ _ hlen] at h
-        cases h
-      have hv : val (incBytes next) = val next + 1 := by
-        rw [val_incBytes, hn, Nat.mod_eq_of_lt hnm]
-      rw [ih _ _ _ _ hlen h t]
-      constructor
-      · rintro (h' | ⟨hk, hl, h1, h2⟩)
-        · by_cases hkn : keep next = true
+    intro dn acc fuel' acc' hn hdn hgo t
+    rw [go_step, hend, bytesLe_cons_same] at hgo
+    by_cases hle : bytesLe dn de = true
+    · rw [if_pos hle] at hgo
+      have hv := (bytesLe_iff_val128 dn de hn hdn hdE).1 hle
+      have hltE := val128_lt de hdE
+      obtain ⟨dn', hl', hdig', hcase⟩ := incPC_valid h dn hdn
+      have key : ∀ dt, dt.length = de.length → Dig dt → val128 dn ≤ val128 dt → val128 dt = val128 dn → h :: dt = h :: dn := by
+        intro dt hl hd _ he
+        rw [val128_inj dt dn (by omega) hd hdn he]
+      rcases hcase with ⟨c1, c2, c3⟩ | ⟨c1, c2⟩
+      · rw [c2] at hgo
+        rw [ih dn' _ fuel' acc' (by omega) hdig' hgo t]
+        constructor
+        · rintro (h' | ⟨hk, dt, rfl, hl, hd, h1, h2⟩)
+          · by_cases hkn : keep (h :: dn) = true
+            · rw [if_pos hkn] at h'
+              rcases List.mem_cons.1 h' with rfl | h''
+              · exact Or.inr ⟨hkn, dn, rfl, hn, hdn, Nat.le_refl _, hv⟩
+              · exact Or.inl h''
+            · rw [if_neg hkn] at h'; exact Or.inl h'
+          · exact Or.inr ⟨hk, dt, rfl, hl, hd, by omega, h2⟩
+        · rintro (h' | ⟨hk, dt, rfl, hl, hd, h1, h2⟩)
+          · left
+            by_cases hkn : keep (h :: dn) = true
+            · rw [if_pos hkn]; exact List.mem_cons_of_mem _ h'
+            · rw [if_neg hkn]; exact h'
+          · by_cases heq : val128 dt = val128 dn
+            · have := key dt hl hd h1 heq
+              rw [this] at hk ⊢
+              left; rw [if_pos hk]; exact List.mem_cons_self
+            · exact Or.inr ⟨hk, dt, rfl, hl, hd, by omega, h2⟩
+      · rw [c2, go_stop keep r fuel _ _ (by rw [hend]; exact overflow_stops h hh dn' de)] at hgo
+        simp only [Option.some.injEq, Prod.mk.injEq] at hgo
+        rw [← hgo.2]
+        constructor
+        · intro h'
+          by_cases hkn : keep (h :: dn) = true
           · rw [if_pos hkn] at h'
             rcases List.mem_cons.1 h' with rfl | h''
-            · exact Or.inr ⟨hkn, hn, bytesLe_refl _, hle⟩
+            · exact Or.inr ⟨hkn, dn, rfl, hn, hdn, Nat.le_refl _, hv⟩
             · exact Or.inl h''
           · rw [if_neg hkn] at h'; exact Or.inl h'
-        · refine Or.inr ⟨hk, hl, ?_, h2⟩
-          rw [bytesLe_iff_val _ _ (by omega)] at h1 ⊢
-          omega
-      · rintro (h' | ⟨hk, hl, h1, h2⟩)
-        · left
-          by_cases hkn : keep next = true
-          · rw [if_pos hkn]; exact List.mem_cons_of_mem _ h'
-          · rw [if_neg hkn]; exact h'
-        · rw [bytesLe_iff_val _ _ (by omega)] at h1
-          by_cases heq : val next = val t
-          · have : next = t := val_inj _ _ (by omega) heq
-            subst this
-            left; rw [if_pos hk]; exact List.mem_cons_self
-          · right
-            refine ⟨hk, hl, ?_, h2⟩
-            rw [bytesLe_iff_val _ _ (by omega)]
-            omega
-    · rw [if_neg hle] at h
-      simp only [Option.some.injEq, Prod.mk.injEq] at h
-      rw [← h.2]
+        · rintro (h' | ⟨hk, dt, rfl, hl, hd, h1, h2⟩)
+          · by_cases hkn : keep (h :: dn) = true
+            · rw [if_pos hkn]; exact List.mem_cons_of_mem _ h'
+            · rw [if_neg hkn]; exact h'
+          · have hlt := val128_lt dt hd
+            have heq : val128 dt = val128 dn := by rw [hl, ← hn] at hlt; omega
+            have := key dt hl hd h1 heq
+            rw [this] at hk ⊢
+            rw [if_pos hk]; exact List.mem_cons_self
+    · rw [if_neg hle] at hgo
+      simp only [Option.some.injEq, Prod.mk.injEq] at hgo
+      rw [← hgo.2]
+      rw [bytesLe_iff_val128 dn de hn hdn hdE] at hle
       constructor
       · exact Or.inl
-      · rintro (h' | ⟨_, hl, h1, h2⟩)
+      · rintro (h' | ⟨_, dt, _, _, _, h1, h2⟩)
         · exact h'
-        · exfalso; apply hle
-          rw [bytesLe_iff_val _ _ (by omega)] at h1 h2 ⊢
-          omega
+        · omega
 
-/-- `termRange.Enumerate` (capped): when it returns, exactly the kept strings of the terms' length lying
-bytewise between start and end term were collected -/
-theorem enumerate_visits (keep : List Byte → Bool) (r : TermRange) (hlen : r.startTerm.length = r.endTerm.length)
-    (fuel : Nat) (acc : List (List Byte)) (fuel' : Nat) (acc' : List (List Byte))
-    (h : enumerate keep r fuel acc = some (fuel', acc')) (t : List Byte) :
-    t ∈ acc' ↔ (t ∈ acc ∨ (keep t = true ∧ t.length = r.startTerm.length ∧
+/-- number of steps of the walk from the term with digits `dn` to the end term with digits `de` -/
+def stepsD (dn de : List Byte) : Nat := val128 de + 1 - val128 dn
+
+/-- **the walk finishes after exactly `stepsD` steps** -/
+theorem go_terminates (keep : List Byte → Bool) (r : TermRange) (h : Byte) (de : List Byte)
+    (hend : r.endTerm = h :: de) (hdE : Dig de) (hh : h.toNat < 255) :
+    ∀ (fuel : Nat) (dn : List Byte) (acc : List (List Byte)), dn.length = de.length → Dig dn →
+      stepsD dn de ≤ fuel → ∃ acc', enumerate.go keep r fuel (h :: dn) acc = some (fuel - stepsD dn de, acc') := by
+  intro fuel
+  induction fuel with
+  | zero =>
+    intro dn acc hn hdn hs
+    unfold stepsD at hs ⊢
+    have hle : ¬ bytesLe (h :: dn) r.endTerm = true := by
+      rw [hend, bytesLe_cons_same, bytesLe_iff_val128 dn de hn hdn hdE]; omega
+    rw [go_stop keep r 0 _ _ hle]
+    exact ⟨acc, by simp⟩
+  | succ fuel ih =>
+    intro dn acc hn hdn hs
+    by_cases hle : bytesLe dn de = true
+    · rw [go_step, hend, bytesLe_cons_same, if_pos hle]
+      have hv := (bytesLe_iff_val128 dn de hn hdn hdE).1 hle
+      have hltE := val128_lt de hdE
+      obtain ⟨dn', hl', hdig', hcase⟩ := incPC_valid h dn hdn
+      unfold stepsD at hs ⊢
+      rcases hcase with ⟨c1, c2, c3⟩ | ⟨c1, c2⟩
+      · rw [c2]
+        obtain ⟨acc', hgo⟩ := ih dn' (if keep (h :: dn) = true then (h :: dn) :: acc else acc) (by omega) hdig'
+          (by unfold stepsD; omega)
+        refine ⟨acc', ?_⟩
+        rw [hgo]; unfold stepsD
+        congr 2; omega
+      · rw [c2, go_stop keep r fuel _ _ (by rw [hend]; exact overflow_stops h hh dn' de)]
+        refine ⟨(if keep (h :: dn) = true then (h :: dn) :: acc else acc), ?_⟩
+        congr 2
+        rw [hn] at c1; omega
+    · have hle' : ¬ bytesLe (h :: dn) r.endTerm = true := by rw [hend, bytesLe_cons_same]; exact hle
+      rw [go_stop keep r _ _ _ hle']
+      have : stepsD dn de = 0 := by
+        unfold stepsD
+        rw [bytesLe_iff_val128 dn de hn hdn hdE] at hle; omega
+      exact ⟨acc, by rw [this]; rfl⟩
+
+
+
+/-- `t` is a valid prefix coded term of the shape of the terms of `r`: same length, same shift byte, all
+digit bytes ≤ 0x7f — the strings `incrementPrefixCoded` can reach from `r.startTerm` -/
+def SameShape (r : TermRange) (t : List Byte) : Prop :=
+  t.length = r.startTerm.length ∧ t.head? = r.startTerm.head? ∧ Dig t.tail
+
+theorem sameShape_iff {r : TermRange} {h : Byte} {ds de : List Byte} (V : ValidRange r h ds de) (t : List Byte) :
+    SameShape r t ↔ ∃ dt, t = h :: dt ∧ dt.length = de.length ∧ Dig dt := by
+  unfold SameShape
+  rw [V.start_eq]
+  constructor
+  · rintro ⟨h1, h2, h3⟩
+    cases t with
+    | nil => simp at h1
+    | cons x xs =>
+      simp only [List.head?_cons, Option.some.injEq] at h2
+      subst h2
+      exact ⟨xs, rfl, by have := V.len; simp at h1; omega, h3⟩
+  · rintro ⟨dt, rfl, h1, h2⟩
+    exact ⟨by have := V.len; simp; omega, rfl, h2⟩
+
+/-- **enumerate_visits**: for a range between two valid prefix coded terms of the same shift, when the capped walk
+returns, exactly the kept valid terms of that shift lying bytewise between start and end were collected -/
+theorem enumerate_visits (keep : List Byte → Bool) (r : TermRange) (h : Byte) (ds de : List Byte)
+    (V : ValidRange r h ds de) (fuel : Nat) (acc : List (List Byte)) (fuel' : Nat) (acc' : List (List Byte))
+    (hrun : enumerate keep r fuel acc = some (fuel', acc')) (t : List Byte) :
+    t ∈ acc' ↔ (t ∈ acc ∨ (keep t = true ∧ SameShape r t ∧
       bytesLe r.startTerm t = true ∧ bytesLe t r.endTerm = true)) := by
-  unfold enumerate at h
-  exact go_spec keep r r.startTerm.length hlen.symm fuel r.startTerm acc fuel' acc' rfl h t
+  unfold enumerate at hrun
+  rw [V.start_eq] at hrun
+  rw [go_spec keep r h de V.end_eq V.digE V.hdr fuel ds acc fuel' acc' V.len V.digS hrun t,
+    sameShape_iff V, V.start_eq, V.end_eq]
+  constructor
+  · rintro (h' | ⟨hk, dt, rfl, hl, hd, h1, h2⟩)
+    · exact Or.inl h'
+    · refine Or.inr ⟨hk, ⟨dt, rfl, hl, hd⟩, ?_, ?_⟩
+      · rw [bytesLe_cons_same, bytesLe_iff_val128 ds dt (by have := V.len; omega) V.digS hd]; exact h1
+      · rw [bytesLe_cons_same, bytesLe_iff_val128 dt de hl hd V.digE]; exact h2
+  · rintro (h' | ⟨hk, ⟨dt, rfl, hl, hd⟩, h1, h2⟩)
+    · exact Or.inl h'
+    · refine Or.inr ⟨hk, dt, rfl, hl, hd, ?_, ?_⟩
+      · rwa [bytesLe_cons_same, bytesLe_iff_val128 ds dt (by have := V.len; omega) V.digS hd] at h1
+      · rwa [bytesLe_cons_same, bytesLe_iff_val128 dt de hl hd V.digE] at h2
 
+/-- base-128 value of the digits of a term (everything after the shift byte) -/
+def dval (t : List Byte) : Nat := val128 t.tail
 
+/-- number of steps the walk over `r` takes -/
+def steps (r : TermRange) : Nat := dval r.endTerm + 1 - dval r.startTerm
+
+theorem enumerate_terminates (keep : List Byte → Bool) (r : TermRange) (h : Byte) (ds de : List Byte)
+    (V : ValidRange r h ds de) (fuel : Nat) (acc : List (List Byte)) (hf : steps r ≤ fuel) :
+    ∃ acc', enumerate keep r fuel acc = some (fuel - steps r, acc') := by
+  have hs : steps r = stepsD ds de := by
+    unfold steps dval stepsD; rw [V.start_eq, V.end_eq]; rfl
+  unfold enumerate
+  rw [V.start_eq, hs]
+  exact go_terminates keep r h de V.end_eq V.digE V.hdr fuel ds acc V.len V.digS (by rw [← hs]; exact hf)
+
+def GoodRange (r : TermRange) : Prop := ∃ h ds de, ValidRange r h ds de
+
+def totalSteps : List TermRange → Nat
+  | [] => 0
+  | r :: rs => steps r + totalSteps rs
+
+theorem totalSteps_append (a b : List TermRange) : totalSteps (a ++ b) = totalSteps a + totalSteps b := by
+  induction a with
+  | nil => simp [totalSteps]
+  | cons x xs ih => simp [totalSteps, ih]; omega
 
 theorem enumerateAll_go_spec (keep : List Byte → Bool) :
     ∀ (rs : List TermRange) (fuel : Nat) (acc out : List (List Byte)),
-      (∀ r ∈ rs, r.startTerm.length = r.endTerm.length) →
+      (∀ r ∈ rs, GoodRange r) →
       enumerateAll.go keep rs fuel acc = some out →
-      ∀ t, t ∈ out ↔ (t ∈ acc ∨ ∃ r ∈ rs, keep t = true ∧ t.length = r.startTerm.length ∧
+      ∀ t, t ∈ out ↔ (t ∈ acc ∨ ∃ r ∈ rs, keep t = true ∧ SameShape r t ∧
         bytesLe r.startTerm t = true ∧ bytesLe t r.endTerm = true) := by
   intro rs
   induction rs with
@@ -290,7 +482,8 @@ theorem enumerateAll_go_spec (keep : List Byte → Bool) :
       obtain ⟨fuel', acc'⟩ := p
       rw [he] at h
       simp only at h
-      have hv := enumerate_visits keep r (hl r List.mem_cons_self) fuel acc fuel' acc' he
+      obtain ⟨hh, ds, de, V⟩ := hl r List.mem_cons_self
+      have hv := enumerate_visits keep r hh ds de V fuel acc fuel' acc' he
       rw [ih fuel' acc' out (fun r' hr' => hl r' (List.mem_cons_of_mem _ hr')) h t, hv t]
       simp only [List.mem_cons, exists_eq_or_imp]
       constructor
@@ -302,6 +495,237 @@ theorem enumerateAll_go_spec (keep : List Byte → Bool) :
         · exact Or.inl (Or.inl h1)
         · exact Or.inl (Or.inr h1)
         · exact Or.inr h1
+
+theorem enumerateAll_go_terminates (keep : List Byte → Bool) :
+    ∀ (rs : List TermRange) (fuel : Nat) (acc : List (List Byte)), (∀ r ∈ rs, GoodRange r) →
+      totalSteps rs ≤ fuel → ∃ out, enumerateAll.go keep rs fuel acc = some out := by
+  intro rs
+  induction rs with
+  | nil => intro fuel acc _ _; rw [enumerateAll.go]; exact ⟨_, rfl⟩
+  | cons r rest ih =>
+    intro fuel acc hg hf
+    rw [enumerateAll.go]
+    obtain ⟨hh, ds, de, V⟩ := hg r List.mem_cons_self
+    simp only [totalSteps] at hf
+    obtain ⟨acc', h⟩ := enumerate_terminates keep r hh ds de V fuel acc (by omega)
+    rw [h]
+    simp only
+    exact ih _ _ (fun r' hr' => hg r' (List.mem_cons_of_mem _ hr')) (by omega)
+
+/-! ## the terms `encode` produces are valid -/
+
+/-- every digit byte of a prefix coded term is ≤ 0x7f -/
+theorem digits_le_7f (sb : I64) (n : Nat) : Dig (digits sb n) := by
+  induction n with
+  | zero => intro d hd; simp [digits] at hd
+  | succ n ih =>
+    intro d hd
+    simp only [digits, List.mem_cons] at hd
+    rcases hd with rfl | hd
+    · rw [digit_toNat]; omega
+    · exact ih d hd
+
+theorem encode_digits_le_7f (v : I64) (s : Nat) : Dig (encode v s).tail := by
+  rw [encode_eq_digits]; exact digits_le_7f _ _
+
+theorem validRange_encode (a b : I64) (s : Nat) (hs : s ≤ 63) :
+    ValidRange ⟨encode a s, encode b s⟩ (BitVec.ofNat 8 (0x20 + s))
+      (digits ((a ^^^ signBit) >>> s) (nChars s)) (digits ((b ^^^ signBit) >>> s) (nChars s)) where
+  start_eq := encode_eq_digits a s
+  end_eq := encode_eq_digits b s
+  len := by simp [length_digits]
+  digS := digits_le_7f _ _
+  digE := digits_le_7f _ _
+  hdr := by simp only [BitVec.toNat_ofNat]; omega
+
+theorem val128_digits (sb : I64) (n : Nat) : val128 (digits sb n) = sb.toNat % 2 ^ (7 * n) := by
+  induction n with
+  | zero => simp [digits, val128_nil, Nat.mod_one]
+  | succ n ih =>
+    simp only [digits, val128_cons, digit_toNat, ih, length_digits]
+    have hp : 2 ^ (7 * (n + 1)) = 2 ^ (7 * n) * 128 := by rw [Nat.mul_succ, Nat.pow_add]
+    have h128 : 128 ^ n = 2 ^ (7 * n) := by rw [Nat.pow_mul]
+    rw [hp, Nat.mod_mul, h128, Nat.mul_comm]; omega
+
+theorem dval_encode (v : I64) (s : Nat) (hs : s ≤ 63) : dval (encode v s) = ((v ^^^ signBit) >>> s).toNat := by
+  unfold dval
+  rw [encode_eq_digits, List.tail_cons, val128_digits, Nat.mod_eq_of_lt (shifted_lt _ s hs)]
+
+theorem steps_newRange_le (lo hi : I64) (s : Nat) (hs : s ≤ 63) (c : Nat)
+    (h : hi.toInt / 2 ^ s - lo.toInt / 2 ^ s + 1 ≤ (c : Int)) : steps (newRange lo hi s) ≤ c := by
+  rw [newRange_eq lo hi s hs]
+  unfold steps
+  simp only
+  rw [dval_encode lo s hs, dval_encode hi s hs]
+  have h1 := toNat_flip_shift lo s hs
+  have h2 := toNat_flip_shift hi s hs
+  rw [toInt_sshiftRight'] at h1 h2
+  omega
+
+
+
+/-! ## a constant bound on the number of steps -/
+
+theorem nextLo_aligned (lo : I64) (s : Nat) (hs : s ∈ levels) (al : lo.toInt % 2 ^ s = 0) :
+    (nextLo lo s).toInt % 2 ^ (s + 4) = 0 := by
+  unfold nextLo
+  by_cases h : ((lo &&& maskAt s) != 0#64) = true
+  · rw [if_pos h, toInt_and_not_maskAt _ s hs, toInt_add_diff lo s hs]
+    shift_cases hs <;> (split <;> omega)
+  · rw [if_neg h, toInt_and_not_maskAt _ s hs]
+    shift_cases hs <;> omega
+
+theorem nextHi_aligned (hi : I64) (s : Nat) (hs : s ∈ levels) (al : hi.toInt % 2 ^ s = 0) :
+    (nextHi hi s).toInt % 2 ^ (s + 4) = 0 := by
+  unfold nextHi
+  by_cases h : ((hi &&& maskAt s) != maskAt s) = true
+  · rw [if_pos h, toInt_and_not_maskAt _ s hs, toInt_sub_diff hi s hs]
+    shift_cases hs <;> (split <;> omega)
+  · rw [if_neg h, toInt_and_not_maskAt _ s hs]
+    shift_cases hs <;> omega
+
+theorem lowerWrapped_bound (lo hi : I64) (s : Nat) (hs : s ∈ levels) (hw : (nextLo lo s).slt lo = true) :
+    hi.toInt / 2 ^ s - lo.toInt / 2 ^ s + 1 ≤ 16 := by
+  rw [BitVec.slt_iff_toInt_lt] at hw
+  have hb := toInt_bounds hi
+  have hl := toInt_bounds lo
+  unfold nextLo at hw
+  by_cases h : ((lo &&& maskAt s) != 0#64) = true
+  · rw [if_pos h, toInt_and_not_maskAt _ s hs, toInt_add_diff lo s hs] at hw
+    rw [hasLower_iff lo s hs] at h
+    shift_cases hs <;> (split at hw <;> omega)
+  · rw [if_neg h, toInt_and_not_maskAt _ s hs] at hw
+    rw [hasLower_iff lo s hs] at h
+    shift_cases hs <;> omega
+
+theorem upperWrapped_bound (lo hi : I64) (s : Nat) (hs : s ∈ levels) (hw : hi.slt (nextHi hi s) = true) :
+    hi.toInt / 2 ^ s - lo.toInt / 2 ^ s + 1 ≤ 16 := by
+  rw [BitVec.slt_iff_toInt_lt] at hw
+  have hb := toInt_bounds hi
+  have hl := toInt_bounds lo
+  unfold nextHi at hw
+  by_cases h : ((hi &&& maskAt s) != maskAt s) = true
+  · rw [if_pos h, toInt_and_not_maskAt _ s hs, toInt_sub_diff hi s hs] at hw
+    rw [hasUpper_iff hi s hs] at h
+    shift_cases hs <;> (split at hw <;> omega)
+  · rw [if_neg h, toInt_and_not_maskAt _ s hs] at hw
+    rw [hasUpper_iff hi s hs] at h
+    shift_cases hs <;> omega
+
+theorem crossed_arith (L H A B : Int) (P : Int) (hP : 0 < P)
+    (e1 : A / P = L / 16 + if L % 16 ≠ 0 then 1 else 0)
+    (e2 : B / P = H / 16 - if H % 16 ≠ 15 then 1 else 0)
+    (a1 : A % P = 0) (a2 : B % P = 0) (lt : B < A) : H - L + 1 ≤ 31 := by
+  have hlt : B / P < A / P := by
+    have hA := Int.mul_ediv_add_emod A P
+    have hB := Int.mul_ediv_add_emod B P
+    rw [a1] at hA; rw [a2] at hB
+    apply Decidable.byContradiction
+    intro hc
+    have : P * (A / P) ≤ P * (B / P) := Int.mul_le_mul_of_nonneg_left (by omega) (by omega)
+    omega
+  by_cases c1 : L % 16 ≠ 0 <;> by_cases c2 : H % 16 ≠ 15
+  · rw [if_pos c1] at e1; rw [if_pos c2] at e2; omega
+  · rw [if_pos c1] at e1; rw [if_neg c2] at e2; omega
+  · rw [if_neg c1] at e1; rw [if_pos c2] at e2; omega
+  · rw [if_neg c1] at e1; rw [if_neg c2] at e2; omega
+
+/-- when the loop stops at a recursing level, the block it emits holds at most 31 values of that precision -/
+theorem terminal_bound (lo hi : I64) (s : Nat) (hs : s ∈ levels)
+    (al : lo.toInt % 2 ^ s = 0) (ah : hi.toInt % 2 ^ s = 0)
+    (hc : (nextHi hi s).slt (nextLo lo s) = true ∨ (nextLo lo s).slt lo = true ∨ hi.slt (nextHi hi s) = true) :
+    hi.toInt / 2 ^ s - lo.toInt / 2 ^ s + 1 ≤ 31 := by
+  by_cases w1 : (nextLo lo s).slt lo = true
+  · have := lowerWrapped_bound lo hi s hs w1; omega
+  · by_cases w2 : hi.slt (nextHi hi s) = true
+    · have := upperWrapped_bound lo hi s hs w2; omega
+    · have w1' : (nextLo lo s).slt lo = false := by simpa using w1
+      have w2' : hi.slt (nextHi hi s) = false := by simpa using w2
+      have hlt : (nextHi hi s).toInt < (nextLo lo s).toInt := by
+        rcases hc with h | h | h
+        · exact BitVec.slt_iff_toInt_lt.1 h
+        · exact absurd h w1
+        · exact absurd h w2
+      exact crossed_arith _ _ _ _ (2 ^ (s + 4)) (Int.pow_pos (by decide))
+        (nextLo_div lo s hs w1') (nextHi_div hi s hs w2') (nextLo_aligned lo s hs al) (nextHi_aligned hi s hs ah) hlt
+
+theorem steps_ite_le (c : Bool) (r : TermRange) (n : Nat) (h : steps r ≤ n) :
+    totalSteps (if c = true then [r] else []) ≤ n := by
+  cases c <;> simp [totalSteps, h]
+
+/-- the ranges emitted from level `4k` on take at most `32·(15−k) + 31` steps in total, each at most 31 -/
+theorem splitLoop_steps : ∀ (fuel k : Nat) (lo hi : I64), k < 16 →
+    lo.toInt % 2 ^ (4 * k) = 0 → hi.toInt % 2 ^ (4 * k) = 0 →
+    totalSteps (splitLoop fuel lo hi (4 * k) 4) ≤ 32 * (15 - k) + 31 ∧
+    ∀ r ∈ splitLoop fuel lo hi (4 * k) 4, steps r ≤ 31 := by
+  intro fuel
+  induction fuel with
+  | zero => intro k lo hi _ _ _; simp [splitLoop, totalSteps]
+  | succ fuel ih =>
+    intro k lo hi hk al ah
+    rw [splitLoop_succ]
+    split
+    · rename_i hc
+      have hb : steps (newRange lo hi (4 * k)) ≤ 31 := by
+        apply steps_newRange_le lo hi _ (by omega) 31
+        by_cases hk15 : k = 15
+        · subst hk15
+          have := toInt_bounds lo; have := toInt_bounds hi
+          omega
+        · have hc' : (nextHi hi (4 * k)).slt (nextLo lo (4 * k)) = true ∨ (nextLo lo (4 * k)).slt lo = true ∨
+              hi.slt (nextHi hi (4 * k)) = true := by
+            rcases hc with h | h
+            · omega
+            · exact h
+          have := terminal_bound lo hi (4 * k) (mem_levels k (by omega)) al ah hc'
+          omega
+      refine ⟨by simp only [totalSteps]; omega, ?_⟩
+      intro r hr
+      simp only [List.mem_singleton] at hr
+      rw [hr]; exact hb
+    · rename_i hc
+      have hk' : k ≤ 14 := by
+        apply Decidable.byContradiction; intro h; apply hc; left; omega
+      have hs := mem_levels k hk'
+      have e4 : 4 * k + 4 = 4 * (k + 1) := by omega
+      have hA : steps (newRange lo (lo ||| maskAt (4 * k)) (4 * k)) ≤ 16 := by
+        apply steps_newRange_le _ _ _ (by omega) 16
+        rw [or_mask_div lo _ hs]; omega
+      have hB : steps (newRange (hi &&& ~~~maskAt (4 * k)) hi (4 * k)) ≤ 16 := by
+        apply steps_newRange_le _ _ _ (by omega) 16
+        rw [and_not_mask_div hi _ hs]; omega
+      have ihn := ih (k + 1) (nextLo lo (4 * k)) (nextHi hi (4 * k)) (by omega)
+        (by rw [← e4]; exact nextLo_aligned lo _ hs al) (by rw [← e4]; exact nextHi_aligned hi _ hs ah)
+      rw [← e4] at ihn
+      constructor
+      · rw [totalSteps_append, totalSteps_append]
+        have := steps_ite_le ((lo &&& maskAt (4 * k)) != 0#64) _ 16 hA
+        have := steps_ite_le ((hi &&& maskAt (4 * k)) != maskAt (4 * k)) _ 16 hB
+        omega
+      · intro r hr
+        simp only [List.mem_append] at hr
+        rcases hr with (hr | hr) | hr
+        · split at hr
+          · simp only [List.mem_singleton] at hr; rw [hr]; omega
+          · simp at hr
+        · split at hr
+          · simp only [List.mem_singleton] at hr; rw [hr]; omega
+          · simp at hr
+        · exact ihn.2 r hr
+
+/-- **enumerate_steps_bounded**: whatever the bounds, walking the ranges of `splitInt64Range lo hi 4` with
+`incrementPrefixCoded` takes at most 31 steps per range and at most 511 steps in total -/
+theorem enumerate_steps_bounded (lo hi : I64) :
+    totalSteps (split lo hi 4) ≤ 511 ∧ ∀ r ∈ split lo hi 4, steps r ≤ 31 := by
+  unfold split
+  split
+  · simp [totalSteps]
+  · have := splitLoop_steps 65 0 lo hi (by omega) (by simp) (by simp)
+    simpa using this
+
+
+
+/-! ## end to end: `rangeMatches` -/
 
 theorem mem_splitLoop_form' : ∀ (fuel : Nat) (lo hi : I64) (k : Nat) (r : TermRange), k < 16 →
     r ∈ splitLoop fuel lo hi (4 * k) 4 → ∃ a b j, j < 16 ∧ r = newRange a b (4 * j) := by
@@ -336,6 +760,12 @@ theorem mem_split_form (lo hi : I64) (r : TermRange) (hr : r ∈ split lo hi 4) 
   · obtain ⟨a, b, j, hj, rfl⟩ := mem_splitLoop_form' _ _ _ 0 r (by omega) hr
     exact ⟨a, b, j, hj, newRange_eq a b _ (by omega)⟩
 
+/-- every range of `split` lies between two valid prefix coded terms of the same shift -/
+theorem split_good (lo hi : I64) : ∀ r ∈ split lo hi 4, GoodRange r := by
+  intro r hr
+  obtain ⟨a, b, j, hj, rfl⟩ := mem_split_form lo hi r hr
+  exact ⟨_, _, _, validRange_encode a b (4 * j) (by omega)⟩
+
 /-- a shift term of `v` lying bytewise inside a range of shift `4j` is the term of shift `4j` -/
 theorem between_shift (a b v : I64) (i j : Nat) (hi : i < 16) (hj : j < 16)
     (h1 : bytesLe (encode a (4 * j)) (encode v (4 * i)) = true)
@@ -348,20 +778,15 @@ theorem between_shift (a b v : I64) (i j : Nat) (hi : i < 16) (hj : j < 16)
   · have := encode_order_shift b v (4 * j) (4 * i) (by omega) (by omega)
     rw [bytesLt_eq_not_bytesLe, h2] at this; simp at this
 
-/-- **end to end on the model the driver runs**: whenever the capped walk over the ranges of
-`splitInt64Range lo hi 4` finishes, it reports a match for `v` (indexed under its 16 shift terms) iff
-`lo ≤ v ≤ hi` -/
+/-- **whenever the capped walk over the ranges of `splitInt64Range lo hi 4` finishes, it reports a match for
+`v` (indexed under its 16 shift terms) iff `lo ≤ v ≤ hi`** -/
 theorem rangeMatches_exact (cap : Nat) (lo hi v : I64) (b : Bool) (h : rangeMatches cap lo hi v = some b) :
     b = true ↔ (lo.sle v = true ∧ v.sle hi = true) := by
   unfold rangeMatches at h
   simp only [Option.map_eq_some_iff] at h
   obtain ⟨out, hout, hb⟩ := h
   unfold enumerateAll at hout
-  have hlen : ∀ r ∈ split lo hi 4, r.startTerm.length = r.endTerm.length := by
-    intro r hr
-    obtain ⟨a, b', j, _, rfl⟩ := mem_split_form lo hi r hr
-    simp [length_encode]
-  have hspec := enumerateAll_go_spec _ _ _ _ _ hlen hout
+  have hspec := enumerateAll_go_spec _ _ _ _ _ (split_good lo hi) hout
   rw [← split_exact lo hi v, ← hb]
   have hne : (!out.isEmpty) = true ↔ ∃ t, t ∈ out := by
     cases out with
@@ -379,115 +804,34 @@ theorem rangeMatches_exact (cap : Nat) (lo hi v : I64) (b : Bool) (h : rangeMatc
     obtain ⟨i, hi', rfl⟩ := (mem_shiftTerms v t).1 ht
     have := between_shift a b' v i j hi' hj h1 h2
     subst this
-    simp [length_encode]
+    refine ⟨by simp [length_encode], ?_, encode_digits_le_7f v _⟩
+    simp only [encode_eq_digits, List.head?_cons]
 
-
-
-/-! ## the walk over the ranges of `split` always finishes (for a big enough cap) -/
-
-/-- number of strings the walk from `next` visits before passing `endTerm` -/
-def stepsFrom (r : TermRange) (next : List Byte) : Nat := val r.endTerm + 1 - val next
-
-theorem go_terminates (keep : List Byte → Bool) (r : TermRange) (n : Nat) (hend : r.endTerm.length = n)
-    (hnotmax : val r.endTerm + 1 < 256 ^ n) :
-    ∀ (fuel : Nat) (next : List Byte) (acc : List (List Byte)), next.length = n → stepsFrom r next ≤ fuel →
-      ∃ acc', enumerate.go keep r fuel next acc = some (fuel - stepsFrom r next, acc') := by
-  intro fuel
-  induction fuel with
-  | zero =>
-    intro next acc hn hs
-    unfold stepsFrom at hs ⊢
-    have hle : ¬ bytesLe next r.endTerm = true := by
-      rw [bytesLe_iff_val _ _ (by omega)]; omega
-    rw [go_zero, if_neg hle]
-    exact ⟨acc, by simp⟩
-  | succ fuel ih =>
-    intro next acc hn hs
-    rw [go_step]
-    by_cases hle : bytesLe next r.endTerm = true
-    · rw [if_pos hle]
-      have hv := (bytesLe_iff_val _ _ (by omega)).1 hle
-      have hinc : val (incBytes next) = val next + 1 := by
-        rw [val_incBytes, hn, Nat.mod_eq_of_lt (by omega)]
-      have hlen : (incBytes next).length = n := by rw [length_incBytes, hn]
-      unfold stepsFrom at hs ⊢
-      obtain ⟨acc', h⟩ := ih (incBytes next) (if keep next = true then next :: acc else acc) hlen
-        (by unfold stepsFrom; omega)
-      refine ⟨acc', ?_⟩
-      rw [h]; unfold stepsFrom
-      congr 2; omega
-    · rw [if_neg hle]
-      have : stepsFrom r next = 0 := by
-        unfold stepsFrom
-        rw [bytesLe_iff_val _ _ (by omega)] at hle; omega
-      exact ⟨acc, by rw [this]; rfl⟩
-
-/-- a range whose end term is not all-0xff and has the length of its start term -/
-def GoodRange (r : TermRange) : Prop :=
-  r.startTerm.length = r.endTerm.length ∧ val r.endTerm + 1 < 256 ^ r.endTerm.length
-
-def totalSteps : List TermRange → Nat
-  | [] => 0
-  | r :: rs => stepsFrom r r.startTerm + totalSteps rs
-
-theorem enumerateAll_go_terminates (keep : List Byte → Bool) :
-    ∀ (rs : List TermRange) (fuel : Nat) (acc : List (List Byte)), (∀ r ∈ rs, GoodRange r) →
-      totalSteps rs ≤ fuel → ∃ out, enumerateAll.go keep rs fuel acc = some out := by
-  intro rs
-  induction rs with
-  | nil => intro fuel acc _ _; rw [enumerateAll.go]; exact ⟨_, rfl⟩
-  | cons r rest ih =>
-    intro fuel acc hg hf
-    rw [enumerateAll.go]
-    have hr := hg r List.mem_cons_self
-    simp only [totalSteps] at hf
-    obtain ⟨acc', h⟩ := go_terminates keep r r.endTerm.length rfl hr.2 fuel r.startTerm acc hr.1 (by omega)
-    unfold enumerate
-    rw [h]
-    simp only
-    exact ih _ _ (fun r' hr' => hg r' (List.mem_cons_of_mem _ hr')) (by omega)
-
-theorem val_encode_not_max (v : I64) (s : Nat) (hs : s ≤ 63) :
-    val (encode v s) + 1 < 256 ^ (encode v s).length := by
-  rw [encode_eq_digits]
-  simp only [val, List.length_cons, Nat.pow_succ]
-  have hb : (BitVec.ofNat 8 (0x20 + s)).toNat = 0x20 + s := by
-    simp only [BitVec.toNat_ofNat]; omega
-  rw [hb]
-  have h1 := val_lt (digits ((v ^^^ signBit) >>> s) (nChars s))
-  have h2 : (32 + s) * 256 ^ (digits ((v ^^^ signBit) >>> s) (nChars s)).length ≤
-      95 * 256 ^ (digits ((v ^^^ signBit) >>> s) (nChars s)).length := Nat.mul_le_mul_right _ (by omega)
-  omega
-
-theorem split_good (lo hi : I64) : ∀ r ∈ split lo hi 4, GoodRange r := by
-  intro r hr
-  obtain ⟨a, b, j, hj, rfl⟩ := mem_split_form lo hi r hr
-  exact ⟨by simp [length_encode], val_encode_not_max b _ (by omega)⟩
-
-/-- **range decomposition is exact, end to end on the model the driver runs**: for every `lo hi v` there is a
-cap from which on the walk over the ranges of `splitInt64Range lo hi 4` finishes, and it then reports a match
-for `v` (indexed under its 16 shift terms) exactly when `lo ≤ v ≤ hi` -/
-theorem rangeMatches_total (lo hi v : I64) :
-    ∃ cap, ∀ cap', cap ≤ cap' →
-      rangeMatches cap' lo hi v = some (decide (lo.sle v = true ∧ v.sle hi = true)) := by
-  refine ⟨totalSteps (split lo hi 4), fun cap' hc => ?_⟩
-  obtain ⟨out, hout⟩ := enumerateAll_go_terminates (fun t => (shiftTerms v).contains t) (split lo hi 4) cap' []
-    (split_good lo hi) hc
-  have hrm : rangeMatches cap' lo hi v = some (!out.isEmpty) := by
+/-- **range decomposition is exact, end to end on the model the driver runs, within a constant number of
+steps**: for every `lo hi v` and every cap ≥ 511 the walk over the ranges of `splitInt64Range lo hi 4`
+finishes and reports a match for `v` (indexed under its 16 shift terms) exactly when `lo ≤ v ≤ hi` -/
+theorem rangeMatches_total (lo hi v : I64) (cap : Nat) (hcap : 511 ≤ cap) :
+    rangeMatches cap lo hi v = some (decide (lo.sle v = true ∧ v.sle hi = true)) := by
+  have hb := (enumerate_steps_bounded lo hi).1
+  obtain ⟨out, hout⟩ := enumerateAll_go_terminates (fun t => (shiftTerms v).contains t) (split lo hi 4) cap []
+    (split_good lo hi) (by omega)
+  have hrm : rangeMatches cap lo hi v = some (!out.isEmpty) := by
     unfold rangeMatches enumerateAll
     simp only [hout, Option.map_some]
   rw [hrm]
   congr 1
-  have := rangeMatches_exact cap' lo hi v _ hrm
+  have := rangeMatches_exact cap lo hi v _ hrm
   cases hb : (!out.isEmpty)
   · rw [hb] at this
     symm; rw [decide_eq_false_iff_not]; intro h'; exact absurd (this.2 h') (by simp)
   · rw [hb] at this
     symm; rw [decide_eq_true_iff]; exact this.1 rfl
 
+/-- instances -/
+example : rangeMatches 511 5#64 9#64 7#64 = some true := rangeMatches_total _ _ _ _ (by omega)
+example : rangeMatches 40 5#64 9#64 7#64 = some true := by decide
+example : rangeMatches 40 5#64 9#64 10#64 = some false := by decide
+example : steps (newRange 5#64 9#64 0) = 5 := by decide
 
-/-- non-vacuity: the capped walk does finish on small instances -/
-example : rangeMatches 1000 5#64 9#64 7#64 = some true := by decide
-example : rangeMatches 1000 5#64 9#64 10#64 = some false := by decide
 
 end Bluge.C10
